@@ -696,6 +696,10 @@ pub struct SimWriter {
     pub straddles: u64,
     /// (call index within the current value, action)
     pub reentry: Option<(u64, Box<dyn FnMut()>)>,
+    /// how many consecutive calls, from the `at`-th on, perform the action
+    pub reentry_span: u64,
+    /// `Reentrant*` configuration: (at, depth)
+    pub reentrant: Option<(u8, u8)>,
     calls_in_value: u64,
     /// octets that `len()` reports in front of what is held
     pub base: usize,
@@ -722,6 +726,12 @@ impl SimWriter {
             calls: 0,
             straddles: 0,
             reentry: None,
+            reentry_span: 1,
+            reentrant: match cfg {
+                WriterCfg::Reentrant(at) => Some((*at, 1)),
+                WriterCfg::ReentrantDeep(at, d) => Some((*at, (*d).max(1))),
+                _ => None,
+            },
             calls_in_value: 0,
             base: match cfg {
                 WriterCfg::Based(b) => *b as usize,
@@ -746,8 +756,9 @@ impl SimWriter {
 
     fn tick(&mut self) {
         self.calls_in_value += 1;
+        let span = self.reentry_span.max(1);
         if let Some((at, action)) = self.reentry.as_mut() {
-            if *at == self.calls_in_value {
+            if *at <= self.calls_in_value && self.calls_in_value < *at + span {
                 action();
             }
         }
